@@ -65,6 +65,12 @@ def generate(rng, tier, index):
             "tasks": None, "shared": None, "agg": gen_det_agg(rng, t, dtype), "chunk": gen_chunk(rng, t),
             "retain": rng.random() < 0.5, "which": which,
         }
+        from .c02 import head_crosses_trunk
+
+        # a defaulted task parameter that also feeds the features makes the head sweep cross the trunk:
+        # outside C13's retain_graph=False scope, so such calls retain the graph
+        if head_crosses_trunk(spec, {**call, "tasks": None}):
+            call["retain"] = True
     return {"spec": spec, "roles": roles, "call": call, "sched": gen_sched(rng, spec), "twin_sched": gen_sched(rng, spec), "pre_grads": gen_pre_grads(rng, spec)}
 
 
